@@ -367,9 +367,6 @@ func ParseQuery(inputQuery string) (Query, error) {
 	}, nil
 }
 
-// maxPredicateDepth bounds the expansion of predicates that call predicates (or themselves).
-const maxPredicateDepth = 16
-
 type predicateDecl struct {
 	params []string
 	body   IExpressionContext
@@ -392,7 +389,11 @@ func (e *conditionExpander) write(text string) {
 // emit writes the tokens of t separated by single spaces. An identifier that names a formal
 // parameter (and is not a member name after '.') is replaced by the actual argument; a call of
 // a declared predicate in primary position is replaced by its parenthesised body.
-func (e *conditionExpander) emit(t antlr.Tree, subst map[string]string, depth int) {
+//
+// active lists the predicates whose bodies are being expanded around t ("name/arity"): a predicate
+// that calls itself, directly or through others, has no finite expansion, so such a call is left
+// as it is (the evaluator then reports the unknown name) instead of being expanded again.
+func (e *conditionExpander) emit(t antlr.Tree, subst map[string]string, active []string) {
 	switch n := t.(type) {
 	case antlr.TerminalNode:
 		text := n.GetText()
@@ -411,30 +412,37 @@ func (e *conditionExpander) emit(t antlr.Tree, subst map[string]string, depth in
 		e.write(text)
 		return
 	case *Predicate_invocationContext:
-		if _, inPrimary := n.GetParent().(*PrimaryContext); inPrimary && depth < maxPredicateDepth {
+		if _, inPrimary := n.GetParent().(*PrimaryContext); inPrimary {
 			var args []IArgumentContext
 			if n.Argument_list() != nil {
 				args = n.Argument_list().AllArgument()
 			}
+			key := fmt.Sprintf("%s/%d", n.Predicate_name().GetText(), len(args))
+			recursive := false
+			for _, a := range active {
+				if a == key {
+					recursive = true
+				}
+			}
 			for _, decl := range e.decls[n.Predicate_name().GetText()] {
-				if len(decl.params) != len(args) {
+				if recursive || len(decl.params) != len(args) {
 					continue
 				}
 				inner := make(map[string]string, len(args))
 				for i, arg := range args {
 					sub := &conditionExpander{decls: e.decls}
-					sub.emit(arg, subst, depth)
+					sub.emit(arg, subst, active)
 					inner[decl.params[i]] = "( " + sub.out.String() + " )"
 				}
 				e.write("(")
-				e.emit(decl.body, inner, depth+1)
+				e.emit(decl.body, inner, append(append([]string{}, active...), key))
 				e.write(")")
 				return
 			}
 		}
 	}
 	for i := 0; i < t.GetChildCount(); i++ {
-		e.emit(t.GetChild(i), subst, depth)
+		e.emit(t.GetChild(i), subst, active)
 	}
 }
 
@@ -474,6 +482,6 @@ func ExpandedCondition(inputQuery string) (string, error) {
 			expander.decls[name] = append(expander.decls[name], decl)
 		}
 	}
-	expander.emit(tree.Expression(), nil, 0)
+	expander.emit(tree.Expression(), nil, nil)
 	return expander.out.String(), nil
 }
